@@ -259,7 +259,7 @@ Proof.
   { change (none_of LB (count_line pad ds p) = true). unfold count_line. rewrite !none_of_app, none_of_cons, Hl, Hn.
     rewrite (digits_none LB ds digit_LB Hd). reflexivity. }
   replace (repeat p (N.to_nat (digits_value ds))) with (repeat p (Z.to_nat (Z.of_N (digits_value ds))))
-    by (rewrite Z_N_nat; reflexivity).
+    by (f_equal; lia).
   apply (read_single C (count_line pad ds p) p _ LB_LF Hbody); [|lia].
   apply (read_line_count C digit_WS digit_DZ digit_IWS); try reflexivity; try assumption.
   - apply (no_lb_no_crlf C LB_LF LB_CR). exact Hl.
@@ -280,7 +280,7 @@ Proof.
   { change (none_of LB (count_line pad ds (hex_body (enc p))) = true). unfold count_line.
     rewrite !none_of_app, none_of_cons, Hl, Hn. rewrite (digits_none LB ds digit_LB Hd). reflexivity. }
   replace (repeat p (N.to_nat (digits_value ds))) with (repeat p (Z.to_nat (Z.of_N (digits_value ds))))
-    by (rewrite Z_N_nat; reflexivity).
+    by (f_equal; lia).
   apply (read_single C _ p _ LB_LF Hbody); [|lia].
   apply (read_line_count C digit_WS digit_DZ digit_IWS); try reflexivity; try assumption.
   - apply (no_lb_no_crlf C LB_LF LB_CR). exact Hl.
@@ -311,17 +311,16 @@ Theorem skips_inst : forall dec encb,
               npw (read_lines C ls) = zsum (map (fun l => line_count (read_line C l)) ls) /\
               nerr (read_lines C ls) = zsum (map (fun l => line_err (read_line C l)) ls)).
 Proof.
-  intros dec encb C. repeat split.
-  - destruct (yielded_is_valid C line p n H) as [A _]. exact A.
-  - destruct (yielded_is_valid C line p n H) as [_ A]. exact A.
-  - apply (skip_blank C [LF]); try reflexivity; assumption.
-  - apply (skip_blank C [CR; LF]); try reflexivity; assumption.
+  intros dec encb C.
+  split; [|split; [|split; [|split; [|split]]]].
+  - intros line p n H. exact (yielded_is_valid C line p n H).
+  - intro Hr. split.
+    + apply (skip_blank C [LF]); try reflexivity; assumption.
+    + apply (skip_blank C [CR; LF]); try reflexivity; assumption.
   - intros body c Hb Hh Hin Hr. apply (skip_rejected C body c [LF]); try reflexivity; assumption.
   - intros body Hb Hh Hn. apply (skip_undecodable C body [LF]); try reflexivity; assumption.
   - intros body Hb Hh Hbad. apply (skip_bad_hex C body [LF]); try reflexivity; assumption.
-  - apply (read_lines_spec C ls).
-  - apply (read_lines_spec C ls).
-  - apply (read_lines_spec C ls).
+  - intro ls. apply (read_lines_spec C ls).
 Qed.
 
 (* the three training passes construct the same reader over the same file *)
@@ -335,7 +334,8 @@ Theorem three_passes_inst : forall dec encb prefix text,
   ((forall l, In l (lines_keep LB text) -> (0 <= line_count (read_line C l))%Z) ->
    npw p1 = Z.of_nat (length (out p2)) /\ npw p1 = Z.of_nat (length (out p3))).
 Proof.
-  intros dec encb prefix text C. simpl. repeat split; apply (count_is_length C); assumption.
+  intros dec encb prefix text C. simpl. split; [reflexivity|]. split; [reflexivity|]. intro H.
+  split; apply (count_is_length C); assumption.
 Qed.
 
 (* the faithful model of the reader does NOT skip a line with a control
@@ -383,17 +383,21 @@ Proof.
   intros items Hne c file.
   assert (Hkeys : map fst c = map fst (tally items)).
   { unfold c, of_counts. rewrite map_map. reflexivity. }
-  repeat split.
-  - apply most_common_perm.
-  - apply calc_probs_keys_nodup. rewrite Hkeys. apply tally_keys_nodup.
-  - intro H. apply calc_probs_keys_in in H. rewrite Hkeys in H. apply tally_keys_in. exact H.
-  - intro H. apply calc_probs_keys_in. rewrite Hkeys. apply tally_keys_in. exact H.
-  - intros v p H. apply (tally_probability_Q items v p Hne H).
-  - apply calc_probs_sorted_Q. unfold c. rewrite total_tally_Q.
+  split; [reflexivity|]. split; [apply most_common_perm|].
+  split; [apply calc_probs_keys_nodup; rewrite Hkeys; apply tally_keys_nodup|].
+  split.
+  { assert (Hin : forall v, In v (map fst c) <-> In v items) by (intro v; rewrite Hkeys; apply tally_keys_in).
+    intro v. split; intro H.
+    - apply Hin. apply (proj1 (calc_probs_keys_in QNum c v)). exact H.
+    - apply (proj2 (calc_probs_keys_in QNum c v)). apply Hin. exact H. }
+  split; [intros v p H; apply (tally_probability_Q items v p Hne H)|].
+  split.
+  { apply calc_probs_sorted_Q. unfold c. rewrite total_tally_Q.
     destruct items as [|x r]; [contradiction|]. simpl length.
-    change 0%Q with (inject_Z 0). rewrite <- Zlt_Qlt. lia.
-  - intro q. apply (most_common_stable QNum (fun x => Qeq_bool x q) c). intros a b. apply Q_class_stable.
-  - rewrite Hkeys. apply tally_keys.
+    change 0%Q with (inject_Z 0). rewrite <- Zlt_Qlt. lia. }
+  split.
+  { intro q. apply (most_common_stable QNum (fun x => Qeq_bool x q) c). intros a b. apply Q_class_stable. }
+  rewrite Hkeys. apply tally_keys.
 Qed.
 
 Theorem sum_one_Q :
@@ -403,7 +407,7 @@ Proof.
   split; [exact calc_probs_sum_one_Q|].
   intros items Hne. apply calc_probs_sum_one_Q. rewrite total_tally_Q.
   destruct items as [|x r]; [contradiction|]. simpl length. intro E.
-  change 0%Q with (inject_Z 0) in E. apply inject_Z_injective in E. lia.
+  unfold Qeq in E. simpl in E. lia.
 Qed.
 
 Theorem markov_count : forall (cov : Q) (n : N) (c : counter QNum),
@@ -417,12 +421,11 @@ Theorem markov_count : forall (cov : Q) (n : N) (c : counter QNum),
   ((0 < cov)%Q -> (cov < 1)%Q -> (0 < n)%N -> ~ In M_key (map fst c) -> (total c == inject_Z (Z.of_N n))%Q ->
      exists p, In (M_key, p) (calc_probs (@with_markov QNum cov n c)) /\ (p == 1 - cov)%Q).
 Proof.
-  intros cov n c. repeat split.
-  - apply with_markov_cov_one.
-  - apply with_markov_cov_zero.
-  - apply (with_markov_other cov n c); assumption.
-  - apply (with_markov_other cov n c); assumption.
-  - intro Hn. destruct (with_markov_other cov n c H H0) as [E _]. rewrite E. apply dict_set_absent. exact Hn.
+  intros cov n c.
+  split; [apply with_markov_cov_one|]. split; [apply with_markov_cov_zero|]. split.
+  - intros H1 H0. destruct (with_markov_other cov n c H1 H0) as [E1 E2].
+    split; [exact E1|]. split; [exact E2|].
+    intro Hn. rewrite E1. apply dict_set_absent. exact Hn.
   - apply markov_probability_Q.
 Qed.
 
@@ -438,18 +441,14 @@ Theorem unsupported_only_raw : forall pws : list (list str),
   sc_raw (count_structs pws) = tally (map structure pws) /\
   sc_prince (count_structs pws) = tally (List.concat pws).
 Proof.
-  intro pws. repeat split.
-  - apply count_structs_base.
-  - apply count_structs_base_all.
-  - apply count_structs_raw_all.
-  - destruct (count_structs_base pws s H0) as [ls [Hin [Hs E]]]. subst s.
-    rewrite Forall_forall in H. apply (supported_no_EW ls (H ls Hin) Hs).
-  - destruct (count_structs_base pws s H0) as [ls [Hin [Hs E]]]. subst s.
-    rewrite Forall_forall in H. apply (supported_no_EW ls (H ls Hin) Hs).
-  - intros ls _ Hs. apply unsupported_has_EW. exact Hs.
-  - apply count_structs_base_is_tally.
-  - apply count_structs_raw_is_tally.
-  - apply count_structs_prince_is_tally.
+  intro pws.
+  split; [apply count_structs_base|]. split; [apply count_structs_base_all|]. split; [apply count_structs_raw_all|].
+  split.
+  { intros H s H0. destruct (count_structs_base pws s H0) as [ls [Hin [Hs E]]]. subst s.
+    rewrite Forall_forall in H. apply (supported_no_EW ls (H ls Hin) Hs). }
+  split; [intros ls _ Hs; apply unsupported_has_EW; exact Hs|].
+  split; [apply count_structs_base_is_tally|]. split; [apply count_structs_raw_is_tally|].
+  apply count_structs_prince_is_tally.
 Qed.
 
 (* one training run: the files and the config lists are functions of the
@@ -469,4 +468,4 @@ Theorem deterministic : forall (O : numops) P sens (cov : num O) n u1 u2,
   ro_files O (run_model O P sens cov n u1) = ro_files O (run_model O P sens cov n u2) /\
   ro_lists O (run_model O P sens cov n u1) = ro_lists O (run_model O P sens cov n u2) /\
   (forall old old' (cs : list (str * counter O)), save_indexed old cs = save_indexed old' cs).
-Proof. intros. repeat split. Qed.
+Proof. intros. split; [reflexivity|]. split; [reflexivity|]. intros. apply save_indexed_wipes. Qed.
